@@ -2036,8 +2036,8 @@ func (w *Writer) writeFunctionBody(fn *ir.Function) error {
 		// Rust naga always initializes locals: with init expression or (Type)0.
 		// Exception: RayQuery variables are NOT zero-initialized (no init in HLSL).
 		w.WriteIndent()
-		isRayQuery := strings.Contains(localType, "RayQuery")
-		if !isRayQuery && int(local.Type) < len(w.module.Types) {
+		isRayQuery := false
+		if int(local.Type) < len(w.module.Types) {
 			_, isRayQuery = w.module.Types[local.Type].Inner.(ir.RayQueryType)
 		}
 		if isRayQuery {
